@@ -200,14 +200,33 @@ fn loglevel(r: u64) -> log::Level {
 }
 
 fn l2t(b: &Value) {
-    let mut builder = tracing_log::LogTracer::builder();
-    for c in b["ignore"].as_array().unwrap() {
-        builder = builder.ignore_crate(c.as_str().unwrap());
+    // every way of installing the bridge: the builder (ignore_crate one by one, or ignore_all), init / init_with_filter, or a
+    // hand-installed LogTracer::new(); `maxlog` is the `log` crate's own maximum level the installation leaves behind
+    let ignore: Vec<String> = b["ignore"].as_array().unwrap().iter().map(|c| c.as_str().unwrap().to_string()).collect();
+    let maxl = b["max_level"].as_u64();
+    let maxlog = maxl.unwrap_or(5);
+    match b["ctor"].as_str().unwrap_or("builder") {
+        "init" => tracing_log::LogTracer::init().unwrap(),
+        "init_with_filter" => tracing_log::LogTracer::init_with_filter(loglevel(maxlog).to_level_filter()).unwrap(),
+        "new" => {
+            log::set_boxed_logger(Box::new(tracing_log::LogTracer::new())).unwrap();
+            log::set_max_level(log::LevelFilter::Trace);
+        }
+        ctor => {
+            let mut builder = tracing_log::LogTracer::builder();
+            if ctor == "ignore_all" {
+                builder = builder.ignore_all(ignore.clone());
+            } else {
+                for c in &ignore {
+                    builder = builder.ignore_crate(c.as_str());
+                }
+            }
+            if let Some(m) = maxl {
+                builder = builder.with_max_level(loglevel(m).to_level_filter());
+            }
+            builder.init().unwrap();
+        }
     }
-    if let Some(m) = b["max_level"].as_u64() {
-        builder = builder.with_max_level(loglevel(m).to_level_filter());
-    }
-    builder.init().unwrap();
     for (ri, round) in b["rounds"].as_array().unwrap().iter().enumerate() {
         let events = Arc::new(Mutex::new(vec![]));
         let col = &round["collector"];
@@ -243,7 +262,7 @@ fn l2t(b: &Value) {
                         log::logger().log(&rb.build());
                     }
                 });
-                let mut line = json!({"ev": "l2t", "round": ri, "i": i, "rec": r, "enabled": en, "events": events.lock().unwrap().clone()});
+                let mut line = json!({"ev": "l2t", "round": ri, "i": i, "rec": r, "enabled": en, "maxlog": maxlog, "events": events.lock().unwrap().clone()});
                 if let Err(p) = res {
                     line["panic"] = json!(p);
                 }
